@@ -743,25 +743,28 @@ def obligations(tier, seed):
         out.append(R.Result(engine="mirsym", name="validation:sequence-encoding", kind="validation", status="encoder-disagrees-with-native",
                             detail=str(val["disagreements"][:1] or f"{val['native_violations']} native violations on the validation vectors")[:400], bodies=[]))
     b, viol, reach, bad = _invalid_params_code(types)
-    if bad or not reach:
+    reach_l = R.live_reach(viol, reach, bad)
+    if bad or not reach_l[0]:
         out.append(R.Result(engine="mirsym", name="kernel:invalid_params:code", kind="kernel", status="unsupported", detail=str(bad[:1])[:300], bodies=[b.name]))
     else:
-        out.append(R.decide("kernel:invalid_params:code", "kernel", z3.Or(*viol) if viol else z3.BoolVal(False), [z3.Or(*reach)], bodies=[b.name],
+        out.append(R.decide("kernel:invalid_params:code", "kernel", z3.Or(*viol) if viol else z3.BoolVal(False), [z3.Or(*reach_l[0])], bodies=[b.name],
                             desc="invalid_params(e) builds the error object with ErrorCode::InvalidParams.code() (-32602, see C15 for the code table) for every e",
                             bounds="every path", keydetail="invalid-params-code", replay=dict(scenario="c16_sequence", vars={}, fixed={"text": "[\"x\"]", "reads": [["next", "u64"]]}, region=z3.BoolVal(True))))
     b, viol, reach, bad = _parse_defaults(types)
-    if bad or not all(reach.values()):
+    reach_l = R.live_reach(viol, reach, bad)
+    if bad or not all(reach_l):
         out.append(R.Result(engine="mirsym", name="prov:Params::parse", kind="provenance", status="unsupported" if bad else "vacuous", detail=str(bad[:1] or {k: len(v) for k, v in reach.items()})[:300], bodies=[b.name]))
     else:
-        out.append(R.decide("prov:Params::parse:text-or-null", "provenance", z3.Or(*viol) if viol else z3.BoolVal(False), [z3.Or(*v) for v in reach.values()], bodies=[b.name],
+        out.append(R.decide("prov:Params::parse:text-or-null", "provenance", z3.Or(*viol) if viol else z3.BoolVal(False), [z3.Or(*v) for v in reach_l], bodies=[b.name],
                             desc="Params::parse hands serde_json the params' own text, or the text `null` when params are absent, and maps every serde error through invalid_params",
                             bounds="params absent / present; every path", keydetail="parse-text",
                             replay=dict(scenario="c16_whole", vars={}, fixed={"battery": True}, region=z3.BoolVal(True))))
     b, viol, reach, bad = _one(types)
-    if bad or not reach:
+    reach_l = R.live_reach(viol, reach, bad)
+    if bad or not reach_l[0]:
         out.append(R.Result(engine="mirsym", name="prov:Params::one", kind="provenance", status="unsupported", detail=str(bad[:1])[:300], bodies=[b.name]))
     else:
-        out.append(R.decide("prov:Params::one:is-parse-of-one-element-array", "provenance", z3.Or(*viol) if viol else z3.BoolVal(False), [z3.Or(*reach)], bodies=[b.name],
+        out.append(R.decide("prov:Params::one:is-parse-of-one-element-array", "provenance", z3.Or(*viol) if viol else z3.BoolVal(False), [z3.Or(*reach_l[0])], bodies=[b.name],
                             desc="Params::one::<T> is parse::<[T; 1]> on the same params", bounds="every path", keydetail="one",
                             replay=dict(scenario="c16_whole", vars={}, fixed={"battery": True}, region=z3.BoolVal(True))))
     return out
